@@ -61,7 +61,12 @@ def observe(case):
         htaio.hta_setup()
         from hta.common.trace import Trace
         t = Trace(trace_files=dict(files), trace_dir=os.path.dirname(files[0]))
-        t.parse_traces(use_multiprocessing=False)
+        try:
+            t.parse_traces(use_multiprocessing=False)
+        except Exception as e:  # noqa: BLE001
+            import traceback
+            where = [l.strip() for l in traceback.format_exc().splitlines() if "/hta/" in l][-1:]
+            return {"rows": {}, "loaded": {}, "canon": {"parsed": {}, "loaded": {}, "raises": C.exc_name(e) + ": " + str(e)[:100] + " @ " + " ".join(where)[-90:]}}
         parsed = {r: htaio.rows_of(t, r) for r in t.get_ranks()}
         ta = htaio.load(files)
         loaded = {r: htaio.rows_of(ta.t, r) for r in ta.t.get_ranks()}
@@ -94,6 +99,8 @@ def _dev(x) -> bool:
 
 def oracle(case, obs) -> List[str]:
     out = []
+    if "raises" in obs["canon"]:
+        return [f"parsing a well-formed trace raises {obs['canon']['raises']}: no links at all"]
     for which, frames in (("parsed", obs["rows"]), ("loaded", obs["loaded"])):
         for r, rows in frames.items():
             by_idx = {x[0]: x for x in rows}
@@ -129,10 +136,12 @@ def features(case, obs):
 
 
 def nontrivial(case, obs, f) -> bool:
-    return f["linked"] >= 2
+    return f["linked"] >= 2 or "raises" in obs["canon"]
 
 
 def sample(case, obs):
+    if not obs["rows"]:
+        return {"raises": obs["canon"].get("raises")}
     r0 = sorted(obs["rows"])[0]
     return {"rank0_idx_corr_stream_link": [[x[0], x[6], x[5], x[7]] for x in obs["rows"][r0] if x[6] != -1][:14]}
 
